@@ -185,7 +185,11 @@ def _resolve_helper(prog: Program, f: FunctionInfo, call: ast.Call, known: Set[s
     if stars and not (g.node.args.kwarg is not None and len(stars) == 1 and isinstance(stars[0].value, ast.Name)):
         return None
     if g.node.args.kwarg is not None and not stars:
-        return None  # the helper's **kwargs would be an empty/new dict: keep the call
+        # explicit keywords collected by the helper's **kwargs: fine if the helper only hands `**kwargs` on to other calls
+        kw = g.node.args.kwarg.arg
+        for n in _own_nodes(g.node):
+            if isinstance(n, ast.Name) and n.id == kw:
+                return None if not _only_forwarded(g.node, kw) else (g, recv)
     # no recursion
     for n in _own_nodes(g.node):
         if isinstance(n, ast.Call) and ((isinstance(n.func, ast.Name) and n.func.id == g.name) or (isinstance(n.func, ast.Attribute) and n.func.attr == g.name)):
@@ -193,11 +197,29 @@ def _resolve_helper(prog: Program, f: FunctionInfo, call: ast.Call, known: Set[s
     return g, recv
 
 
+def _only_forwarded(fn: ast.AST, kw: str) -> bool:
+    """Every use of the **kwargs name is `f(..., **kwargs)`."""
+    uses = [n for n in _own_nodes(fn) if isinstance(n, ast.Name) and n.id == kw]
+    forwarded = [k.value for n in _own_nodes(fn) if isinstance(n, ast.Call) for k in n.keywords if k.arg is None and isinstance(k.value, ast.Name) and k.value.id == kw]
+    return len(uses) == len(forwarded)
+
+
+class _ExplicitKwargs(ast.AST):
+    """Marker: the helper's **kwargs is bound to these explicit keyword arguments of the call."""
+
+    _fields = ()
+
+    def __init__(self, items):
+        super().__init__()
+        self.items = items
+
+
 def _bind(g: FunctionInfo, call: ast.Call, recv: Optional[ast.AST]) -> Optional[Dict[str, ast.AST]]:
     a = g.node.args
     pos = [x.arg for x in a.posonlyargs + a.args]
     kwonly = [x.arg for x in a.kwonlyargs]
     out: Dict[str, ast.AST] = {}
+    extras: List[Tuple[str, ast.AST]] = []
     args = list(call.args)
     if recv is not None:
         if not pos:
@@ -213,9 +235,16 @@ def _bind(g: FunctionInfo, call: ast.Call, recv: Optional[ast.AST]) -> Optional[
             # `**kwargs` handed through unchanged to the helper's own **kwargs
             out[a.kwarg.arg] = k.value
             continue
-        if k.arg in out or k.arg not in pos + kwonly:
+        if k.arg in out:
             return None
+        if k.arg not in pos + kwonly:
+            if a.kwarg is None:
+                return None
+            extras.append((k.arg, k.value))
+            continue
         out[k.arg] = k.value
+    if a.kwarg is not None and a.kwarg.arg not in out:
+        out[a.kwarg.arg] = _ExplicitKwargs(extras)
     for p in pos + kwonly:
         if p not in out:
             d = g.param_default(p)
@@ -267,6 +296,11 @@ class Inliner:
         mapping: Dict[str, object] = {}
         pre: List[ast.stmt] = []
         caller_stored = _stored_names(f.node.body)
+        explicit_kwargs = None
+        for p, v in list(binding.items()):
+            if isinstance(v, _ExplicitKwargs):
+                explicit_kwargs = (p, v.items)
+                del binding[p]
         for p, v in binding.items():
             simple = isinstance(v, ast.Name) and p not in stored and (v.id not in stored)
             const = isinstance(v, ast.Constant) and p not in stored
@@ -281,8 +315,27 @@ class Inliner:
         for n in stored:
             if n not in mapping:
                 mapping[n] = f"{n}{tag}"
-        ren = _Rename(mapping)  # type: ignore[arg-type]
-        new_body = [ren.visit(s) for s in new_body]
+        if explicit_kwargs is not None:
+            kwname, items = explicit_kwargs
+
+            class Fwd(ast.NodeTransformer):
+                def visit_Call(self, c: ast.Call):
+                    self.generic_visit(c)
+                    new_kw = []
+                    for k in c.keywords:
+                        if k.arg is None and isinstance(k.value, ast.Name) and k.value.id == kwname:
+                            new_kw += [ast.keyword(arg=n_, value=copy.deepcopy(v_)) for n_, v_ in items]
+                        else:
+                            new_kw.append(k)
+                    c.keywords = new_kw
+                    return c
+
+            # the explicit values are caller expressions: substitute them after the helper's own names were renamed
+            ren = _Rename(mapping)  # type: ignore[arg-type]
+            new_body = [Fwd().visit(ren.visit(s)) for s in new_body]
+        else:
+            ren = _Rename(mapping)  # type: ignore[arg-type]
+            new_body = [ren.visit(s) for s in new_body]
         out: List[ast.stmt] = list(pre)
         needs_value = not isinstance(st, ast.Expr)
         if needs_value:
